@@ -2,6 +2,7 @@ use crate::rep::Report;
 use crate::Ctx;
 
 pub mod c01;
+pub mod c08;
 pub mod c09;
 pub mod c14;
 pub mod c16;
@@ -10,6 +11,7 @@ pub mod c18;
 pub fn run(prop: &str, ctx: &Ctx, r: &mut Report) -> bool {
 	match prop {
 		"C01" => c01::run(ctx, r),
+		"C08" => c08::run(ctx, r),
 		"C09" => c09::run(ctx, r),
 		"C14" => c14::run(ctx, r),
 		"C16" => c16::run(ctx, r),
